@@ -286,7 +286,7 @@ def eval_shard(path, timeout=1500):
     body = m.group(1).strip()
     if body == "[]":
         return {"shard": path, "ok": True, "bad": []}
-    idx = [int(x) for x in re.findall(r"\((\d+)(?:%nat)?\s*,", body)]
+    idx = [int(x) for x in re.findall(r"\(\s*(\d+)(?:%nat)?\s*,", body)]
     if not idx:
         return {"shard": path, "ok": False, "error": "non-empty mismatch list not parsed: " + body[:2000], "bad": None}
     return {"shard": path, "ok": True, "bad": idx, "raw": body[:4000]}
